@@ -140,3 +140,24 @@ package report
 //@   ensures dlsr: result.Reports[0].Delay == ite(stream.lastSenderReportTime.IsZero(), 0, uint32(now.Sub(stream.lastSenderReportTime).Seconds() * 65536))
 //@   ensures jitter: result.Reports[0].Jitter == uint32(stream.jitter)
 //@   ensures cursor: stream.lastReportSeqnum == stream.lastSeqnum
+//@
+//@ # ---- interceptor glue (properties C01, C02)
+//@ # the receiver's RTP reader: transparent; a failed read is not accounted
+//@ func (*ReceiverInterceptor).BindRemoteStream$1
+//@   requires stream: stream != nil && rinv(stream) && stream.ext < (1 << 62)
+//@   # reordering within the 8192-packet history (the assumption of C06)
+//@   assume_after "attr.GetRTPHeader" in_history: result1 == nil ==> result0 != nil && (stream.started ==> (result0.SequenceNumber - stream.lastSeqnum < 32768 || stream.lastSeqnum - result0.SequenceNumber < 8192))
+//@   modifies *
+//@   ensures read_once: calls("reader.Read") == 1 && callarg("reader.Read", 0) == b && callarg("reader.Read", 1) == a
+//@   ensures read_error_returned: callres("reader.Read", 2) != nil ==> result0 == 0 && result2 == callres("reader.Read", 2)
+//@   ensures same_length: result2 == nil ==> result0 == callres("reader.Read", 0)
+//@   ensures failed_read_not_accounted: callres("reader.Read", 2) != nil ==> calls("processRTP") == 0
+//@   ensures accounted_once: calls("processRTP") <= 1 && (result2 == nil ==> calls("processRTP") == 1)
+//@
+//@ # the sender's RTP writer: the packet is accounted once and forwarded once, unchanged, result passed through
+//@ func (*SenderInterceptor).BindLocalStream$1
+//@   requires stream: stream != nil && senderInv(stream) && stream.sent < (1 << 62) && header != nil
+//@   modifies *
+//@   ensures forwarded_once: calls("writer.Write") == 1 && callarg("writer.Write", 0) == header && callarg("writer.Write", 1) == payload && callarg("writer.Write", 2) == a
+//@   ensures result_passed: result0 == callres("writer.Write", 0) && result1 == callres("writer.Write", 1)
+//@   ensures accounted_once: calls("processRTP") == 1
